@@ -70,20 +70,23 @@ func (r *ResponseFilter) FilterClone(msg proto.Message) proto.Message {
 	return clone
 }
 
-// filterPaths prepares the paths of a read mask for fmutils, which expects valid paths and panics otherwise:
-// a path can't continue below a scalar, map or repeated scalar field. Validate reports such a path, a read that gets
-// one anyway selects the field the path stops at.
+// filterPaths prepares the paths of a read mask for fmutils, which expects valid, normalised paths and otherwise panics
+// or selects less than the mask names:
+//   - a path can't continue below a scalar, map or repeated scalar field. Validate reports such a path, a read that
+//     gets one anyway selects the field the path stops at.
+//   - a path that is covered by another one ("a.b" next to "a") is dropped, a mask selects the union of its paths.
 //
 // Empty paths select nothing.
 func filterPaths(msg proto.Message, paths []string) []string {
 	md := msg.ProtoReflect().Descriptor()
-	res := make([]string, 0, len(paths))
+	mask := &fieldmaskpb.FieldMask{Paths: make([]string, 0, len(paths))}
 	for _, path := range paths {
 		if path = traversablePrefix(md, path); path != "" {
-			res = append(res, path)
+			mask.Paths = append(mask.Paths, path)
 		}
 	}
-	return res
+	mask.Normalize()
+	return mask.Paths
 }
 
 // traversablePrefix returns path cut after the first field that paths can't continue below.
